@@ -27,6 +27,7 @@ type tfCase struct {
 		Day int `json:"day"`
 		H   int `json:"h"`
 		M   int `json:"m"`
+		Z   int `json:"z"` // offset of the local zone from UTC, minutes
 	} `json:"t"`
 	Allowed bool   `json:"allowed"`
 	Text    string `json:"text"`
@@ -37,8 +38,8 @@ type tfCase struct {
 }
 
 // tfInstant: a local time with the given weekday (0 = Sunday), hour and minute. 2024-01-07 is a Sunday.
-func tfInstant(day, h, m int) time.Time {
-	return time.Date(2024, 1, 7+day, h, m, 17, 0, time.Local)
+func tfInstant(day, h, m, zone int) time.Time {
+	return time.Date(2024, 1, 7+day, h, m, 17, 0, time.FixedZone(fmt.Sprintf("local%+d", zone), zone*60))
 }
 
 // c04TimeFrame (TimeFrame.tla): the textual form of --allow-time-frame entries through the real parser, and entry lists x
@@ -93,7 +94,7 @@ func c04TimeFrame(e *env) {
 		}
 		f.mapName("origin.test:80", origin.addr())
 		for i, c := range cs {
-			at := tfInstant(c.T.Day, c.T.H, c.T.M)
+			at := tfInstant(c.T.Day, c.T.H, c.T.M, c.T.Z)
 			middleware.VerifSetClock(func() time.Time { return at })
 			res := map[string]any{"ok": true, "kind": "match", "list": c.List, "t": c.T, "allowed": c.Allowed}
 			// the entries' own verdict
